@@ -72,6 +72,9 @@ def sps_def(fi):
 def run(ctx):
   from rules import C07, C09
   C09.velocity(ctx)     # extraction re-bins the velocity the renderer wrote: the two maps must be inverse on bin representatives
+  C07.roll_pitch_range(ctx, 'EXTRACT/roll-pitch-range')
+  C07.roll_gap_index(ctx, 'EXTRACT/roll-gap-index')
+  C07.velocity_onsets(ctx, 'EXTRACT/velocity-onsets-only')
   C07.drum_gap(ctx, 'EXTRACT/drum-gap')
   C07.note_perf_limit(ctx, 'EXTRACT/note-limit')
   C07.metric_limit(ctx, 'EXTRACT/metric-limit')
